@@ -87,6 +87,17 @@ def main():
     t0 = time.time()
     if hasattr(mod, 'setup'):
         mod.setup(ctx)
+    # parameter order of the public callables against the committed snapshot
+    try:
+        from vf import sigsnap
+        snap = json.load(open(sigsnap.PATH))
+        moved = sigsnap.compare(snap, sigsnap.current())
+        ctx.counters['signatures_compared'] += len(snap)
+        for name, msg in moved:
+            ctx.case_idx, ctx.case_desc = spec['start'], {'callable': name}
+            ctx.violation('api.parameter-order-changed[%s]' % name, msg)
+    except FileNotFoundError:
+        pass
     budget = spec.get('budget_s')
     done = 0
     san_prefix = spec.get('san_log') if spec.get('variant') == 'tsan' else None
